@@ -42,7 +42,7 @@ def one(name):
 
 
 names = [n for n in sorted(os.listdir(base)) if os.path.exists(os.path.join(base, n, 'patch.diff')) and (not only or any(n.startswith(o) for o in only))]
-jobs = 2 if mode == 'cross' else 6
+jobs = int(os.environ.get('MX_JOBS', '2')) if mode == 'cross' else 6
 bad = tot = 0
 try:
     with ThreadPoolExecutor(jobs) as ex:
